@@ -300,6 +300,8 @@ class P(Prop):
         (M, "TV.C13.session_no_state_left", "hidden state: str, readTimestamp, timeWithZone, writeToGpx, writeToFile + readFromCsv (also when the reader raises) return with the read format, the print format and the memo table they found; any sequence of them leaves the state as found"),
         (M, "TV.C13.session_time_roundtrip", "under ANY history of format changes and library calls that leaves read format = print format (lossless) at the time of the pair, str(t) then - after any further library calls - readTimestamp of that text gives the stamp back"),
         (M, "TV.C13.session_csv_roundtrip", "the same for a file: writeToFile then readFromCsv in any reachable state with equal formats (hypotheses of csv_file_roundtrip): every observation comes back through the memo table of the state, and the state is left as found"),
+        (M, "TV.C13.str_string_level", "ObsTime.__str__ at STRING level (for each code of __codes: str.find, splice over two characters, until not found) equals the token-level model printTime(tokenize fmt) for every format whose literal characters are not code letters D M Y h m s z (assumed of Python: find of a two-character string, slicing, {:0wd}; no backslash in the format)"),
+        (M, "TV.C13.precompile_string_level", "ObsTime.__precompileReadFmt at string level (format.find(code) for every code, sort, shift; no '*') equals the token-level precompile(tokenize fmt) under the same hypothesis"),
         (M, "TV.C13.gpx_read_formats", "'4Y-2M-2DT2h:2m:2s' with or without Z reads the stamps the GPX writer prints, calendar part unchanged"),
         (M, "TV.C13.written_precision_partial", "the written precision is that of the text: the fixed-point text of CSV / GPX and the str(float) text of WKT (any magnitude, e or E) are read back by float() as exactly the decimal printed (format()'s rounding of arbitrary doubles and repr's choice of the shortest digits not covered)"),
     ]
@@ -313,8 +315,10 @@ class P(Prop):
                        "formats in force, and that THEY leave no state behind is checked (global formats compared after every library call), not proved; "
                        "TrackFormat objects built by the user BEFORE a format change and used after it (time_fmt is a stale copy: an exception inside "
                        "__readFromCsv then leaves the stale format in force) are outside the model",
-                       "the string-level find/replace loops of ObsTime.__str__ and __precompileReadFmt are modelled on the tokenised format (codes recognised left to right); "
-                       "equivalence with the string algorithm for formats whose literals are not code letters is checked by correspondence only",
+                       "the string-level find/replace loops of ObsTime.__str__ and __precompileReadFmt: their equivalence with the tokenised model is PROVED for formats "
+                       "whose literals are not code letters (str_string_level, precompile_string_level; Python's str.find / slicing / format modelled as find2 / splice2 / "
+                       "zpad); open: formats with a literal code letter (the algorithms really differ there: '2DD' on day 12 prints '112'), the '*' wildcard of "
+                       "the read format, the backslash loop of __str__ (which does not terminate on a format holding a backslash but no '@')",
                        "read_all: proved for every reader header count up to the header lines written (0 .. 3); counts beyond (the header loop eats data lines) are "
                        "correspondence only; float() of digit-group underscores (1_000) and of exponents beyond the double range (1e400 -> inf) is outside the "
                        "model (the generators avoid them)",
